@@ -3,6 +3,7 @@
 package spynode
 
 import (
+	"sync/atomic"
 	"bytes"
 	"fmt"
 	"math/rand"
@@ -48,6 +49,12 @@ type txWorld struct {
 	blocksProcessed map[bitcoin.Hash32]bool
 	safeDelayMS     int
 	judgeFrom       int // callbacks before this sequence number are ignored by checkC04
+	// transactions whose bodies reach the node while the next block is being processed: they are
+	// handed to the incoming side and the tx processor on a second goroutine, started from inside
+	// the midBlockAt-th handler callback of that block (as the real goroutines would overlap)
+	midBlock   []*txInfo
+	midBlockAt int
+	midBlocks  int
 }
 
 func (w *txWorld) tracef(f string, a ...interface{}) {
@@ -324,10 +331,95 @@ func (w *txWorld) deliverBlocks(bs []*verifkit.Block, parse bool) {
 }
 
 // stepBlock = one block-processor step with ground-truth bookkeeping.
+type midProc struct {
+	id    bitcoin.Hash32
+	ready bool
+	safe  bool
+	err   error
+}
+
 func (w *txWorld) stepBlock() bool {
 	before := w.e.node.blocks.LastHeight()
 	ok := false
-	w.guard("block processor step", func() { ok = w.e.step() })
+	if len(w.midBlock) > 0 && w.e.node.state.BlocksRequestedCount() > 0 {
+		tis, at := w.midBlock, w.midBlockAt
+		w.midBlock = nil
+		var count, started int32
+		done := make(chan struct{})
+		var procs []midProc
+		node, ctx := w.e.node, w.e.ctx
+		w.e.log.mu.Lock()
+		prev := w.e.log.onEvent
+		w.e.log.onEvent = func(ev recEvent) {
+			if prev != nil {
+				prev(ev)
+			}
+			if ev.Handler != 0 || int(atomic.AddInt32(&count, 1))-1 != at || !atomic.CompareAndSwapInt32(&started, 0, 1) {
+				return
+			}
+			go func() {
+				defer close(done)
+				for _, ti := range tis {
+					node.handleMessage(ctx, ti.tx) // what monitorIncoming does with a tx message
+				}
+				for {
+					select {
+					case td := <-node.unconfTxChannel.Channel: // what processUnconfirmedTxs does
+						p := midProc{id: *td.Msg.TxHash(), ready: node.state.IsReady(), safe: td.Safe}
+						p.err = node.processUnconfirmedTx(ctx, td)
+						procs = append(procs, p)
+					default:
+						return
+					}
+				}
+			}()
+			select {
+			case <-done:
+			case <-time.After(120 * time.Millisecond): // blocked on the block processor's locks: go on
+			}
+		}
+		w.e.log.mu.Unlock()
+		w.guard("block processor step", func() { ok = w.e.step() })
+		w.e.log.mu.Lock()
+		w.e.log.onEvent = prev
+		w.e.log.mu.Unlock()
+		names := ""
+		for _, ti := range tis {
+			names += ti.name + " "
+		}
+		if atomic.LoadInt32(&started) == 1 {
+			w.midBlocks++
+			select {
+			case <-done:
+			case <-time.After(20 * time.Second):
+				w.find("C03", "C03/mid-block-arrival-never-finished", "a transaction handed to the node while a block was processed is still not processed 20 s after the block")
+				return ok
+			}
+			w.tracef("while that block was processed (callback %d) the bodies of [%s] arrived from the trusted peer", at, names)
+			for _, p := range procs {
+				ti := w.byID[p.id]
+				if p.err != nil {
+					w.find("C03", "C03/process-unconfirmed-error", fmt.Sprintf("processUnconfirmedTx failed: %v", p.err))
+				}
+				if ti != nil {
+					if ti.processedUnconf == 0 {
+						ti.firstSeenReady = p.ready || p.safe
+					}
+					ti.processedUnconf++
+					ti.trustedVouched = ti.trustedVouched || p.ready
+				}
+			}
+		} else if !ok {
+			w.midBlock = tis // no block was processed in this step
+		} else {
+			// the block had no callback with that index: the bodies arrive right after it
+			for _, ti := range tis {
+				w.arrive(ti, "trusted-bare", true)
+			}
+		}
+	} else {
+		w.guard("block processor step", func() { ok = w.e.step() })
+	}
 	if !ok {
 		return false
 	}
